@@ -159,12 +159,14 @@ def run(sc):
   for k in range(K):
     # ---- inputs
     user = np.zeros((nworld, ntree), dtype=bool)
+    kicked = np.zeros((nworld, ntree), dtype=bool)
     for w in range(nworld):
       if r.random() < sc["event_p"]:
         t = int(r.integers(0, ntree))
         sel = np.nonzero(dof_tree == t)[0]
         d.qvel.numpy()[w, sel] += r.normal(0, 1.5, sel.size).astype(np.float32)
         user[w, t] = True
+        kicked[w, t] = True
         fault("kick")
       if r.random() < sc["event_p"]:
         bods = np.nonzero(body_tree >= 0)[0]
@@ -185,10 +187,12 @@ def run(sc):
         fault("mocap_push")
     xf = d.xfrc_applied.numpy()
     qf = d.qfrc_applied.numpy()
+    forced = np.zeros((nworld, ntree), dtype=bool)  # an applied force (not a velocity kick: a kicked tree may sleep if it stays below tolerance)
     for w in range(nworld):
       for t in range(ntree):
         if np.any(xf[w][body_tree == t] != 0) or np.any(qf[w][dof_tree == t] != 0):
           user[w, t] = True
+          forced[w, t] = True
     pre_tree_asleep = d.tree_asleep.numpy().copy()
     pre_asleep = pre_tree_asleep >= 0
     pre_qpos, pre_qvel = d.qpos.numpy().copy(), d.qvel.numpy().copy()
@@ -317,8 +321,12 @@ def run(sc):
           stats["sets"].setdefault("quiet_steps_before_sleep", []).append(str(int(min(quiet_steps[w, t], 99))))
           if never[t]:
             viol("ii-c", "never_policy_tree_slept", {"step": k, "world": w, "tree": t})
-          elif not below[w, t] or user[w, t]:
-            viol("ii-c", "slept_while_moving_or_forced", {"step": k, "world": w, "tree": t, "measure_max": float(meas[w][dsel].max()), "tolerance": tol, "user_input": bool(user[w, t])})
+          elif kicked[w, t] and not forced[w, t]:
+            # sleep() judges the velocity at the end of the step; the monitor only knows the one at its start (the slept tree's velocity
+            # is zeroed): in the step of a velocity kick the two differ by more than round-off, so this instance is counted, not judged
+            fault("slept_in_the_step_of_a_kick_not_judged")
+          elif not below[w, t] or forced[w, t]:
+            viol("ii-c", "slept_while_moving_or_forced", {"step": k, "world": w, "tree": t, "measure_max": float(meas[w][dsel].max()), "tolerance": tol, "applied_force": bool(forced[w, t])})
           else:
             isl = island[w, t]
             mates = [u for u in range(ntree) if u != t and isl >= 0 and island[w, u] == isl]
